@@ -50,7 +50,9 @@ func (g *SynGen) propName() string {
 	case 0:
 		return []string{"if", "class", "function", "new", "delete", "in", "typeof", "default", "null", "true", "enum", "await", "yield", "let", "static", "async", "get", "set", "constructor"}[r.Intn(19)]
 	case 1:
-		return []string{"\"str\"", "'q'", "0", "1.5", "0x10", "1e3", ".5", "1_0", "0b11", "0o7", "1n"}[r.Intn(11)]
+		return []string{"\"str\"", "'q'", "0", "1.5", "0x10", "1e3", ".5", "1_0", "0b11", "0o7", "1n",
+			// computed numeric keys that lose their brackets when minifying, unless they print with a sign
+			"[-0]", "[-1]", "[+0]", "[-0.0]", "[1e400]", "[-1e400]", "[-1e-7]", "[0]", "[-(0)]", "[1 - 1]", "[0 * -1]"}[r.Intn(22)]
 	case 2:
 		return "[" + g.Expr(1) + "]"
 	default:
